@@ -139,6 +139,34 @@ fn shape(kind: &str, re: &str) -> String {
             let s = &o["inner"];
             format!("k={} t={} n={} c={}", s["k"], arr_len(&s["t"]), s["n"], nd_len(&s["c"]))
         }
+        "Curve" => {
+            let c = &o["inner"];
+            let (kind, count) = match &c["nodes"] {
+                Value::Object(m) if m.len() == 1 => {
+                    let (k, v) = m.iter().next().unwrap();
+                    (k.clone(), match v { Value::Object(mm) => mm.len(), _ => 0 })
+                }
+                _ => ("?".to_string(), 0),
+            };
+            let tag = |v: &Value| -> String {
+                match v {
+                    Value::String(s) => s.clone(),
+                    Value::Object(m) if m.len() == 1 => m.keys().next().unwrap().clone(),
+                    _ => "?".to_string(),
+                }
+            };
+            format!(
+                "n={}:{} i={} id={} cv={} m={} ib={} cal={}",
+                kind,
+                count,
+                tag(&c["interpolator"]),
+                hex_encode(c["id"].as_str().unwrap_or("?")),
+                tag(&c["convention"]),
+                tag(&c["modifier"]),
+                if c["index_base"].is_null() { 0 } else { 1 },
+                tag(&c["calendar"])
+            )
+        }
         _ => String::new(),
     }
 }
@@ -540,7 +568,7 @@ fn valid_doc(r: &mut Rng) -> J {
     };
     match r.below(11) {
         10 => {
-            // a curve (the loader MODEL does not cover it: judged by the model-free oracle only)
+            // a curve: every rule, order, convention, modifier and calendar kind
             let mut map = indexmap::IndexMap::new();
             let mut d = r.range(15000, 16000);
             for _ in 0..r.range(2, 4) {
@@ -550,17 +578,23 @@ fn valid_doc(r: &mut Rng) -> J {
             let interp = *r.pick(&["linear", "log_linear", "linear_zero_rate", "flat_forward", "flat_backward"]);
             let ad = *r.pick(&[ADOrder::Zero, ADOrder::One, ADOrder::Two]);
             let base = if r.chance(1, 2) { None } else { Some(100.0) };
-            let c = CurveHandle::new(
-                map,
-                interp,
-                ad,
-                "c".to_string(),
-                Convention::Act365F,
-                Modifier::ModF,
-                CalType::NamedCal(NamedCal::try_new("tgt").unwrap()),
-                base,
-            )
-            .unwrap();
+            let conv = *r.pick(&[
+                Convention::One, Convention::OnePlus, Convention::Act365F, Convention::Act365FPlus, Convention::Act360,
+                Convention::ThirtyE360, Convention::Thirty360, Convention::Thirty360ISDA, Convention::ActActISDA,
+                Convention::ActActICMA, Convention::Bus252,
+            ]);
+            let modi = *r.pick(&[Modifier::Act, Modifier::F, Modifier::ModF, Modifier::P, Modifier::ModP]);
+            let cal = match r.below(3) {
+                0 => CalType::NamedCal(NamedCal::try_new(*r.pick(&["tgt", "nyc", "ldn,tgt|fed"])).unwrap()),
+                1 => CalType::Cal(Cal::new(vec![crate::dates::day(r.range(18000, 20000))], vec![5, 6])),
+                _ => {
+                    let c1 = Cal::new(vec![crate::dates::day(19000)], vec![5, 6]);
+                    let c2 = Cal::new(vec![], vec![6]);
+                    CalType::UnionCal(UnionCal::new(vec![c1, c2.clone()], if r.chance(1, 2) { Some(vec![c2]) } else { None }))
+                }
+            };
+            let id = (*r.pick(&["c", "curve_A", "x1_"])).to_string();
+            let c = CurveHandle::new(map, interp, ad, id, conv, modi, cal, base).unwrap();
             // `to_json` of the Python-facing curve is already the tagged document
             let v: Value = serde_json::from_str(&c.to_json().unwrap()).expect("own json");
             J::from_value(&v)
